@@ -6,6 +6,7 @@ import (
 	"go.flow.arcalot.io/engine/zverif/simrt"
 	"math"
 	"pgregory.net/rapid"
+	"strings"
 )
 
 // PropDef is the generator and the oracle of one property.
@@ -40,6 +41,9 @@ func genS1(t *rapid.T, prop string, profs []*ir.Profile, adversarial bool) *Case
 
 func s1Check(prop string, oracles ...func(string, *View) []Violation) func(c *Case, r *harness.Result) []Violation {
 	return func(c *Case, r *harness.Result) []Violation {
+		if r.PrepareErr != "" && c.Program.DefaultM != "" && strings.Contains(r.PrepareErr, "default") {
+			return nil // the generated odd default was refused: a verdict, not a crash
+		}
 		if r.PrepareErr != "" {
 			return []Violation{viol(prop, "prepare-rejected-generated-program", "", "a well-typed generated program was rejected: %s", r.PrepareErr)}
 		}
@@ -176,6 +180,19 @@ func init() {
 				c.Doc["n"] = rapid.SampledFrom([]int64{-1, math.MaxInt64, math.MinInt64, math.MaxInt32 + 1, -7}).Draw(t, "extreme_n")
 				if rapid.Bool().Draw(t, "extreme_m") {
 					c.Doc["m"] = rapid.SampledFrom([]int64{-1, math.MaxInt64, math.MinInt64}).Draw(t, "extreme_m_v")
+				}
+			}
+			if rapid.IntRange(0, 9).Draw(t, "odd_default") == 0 {
+				// a declared default that does not fit its field: refused at preparation or at the run, with
+				// an error either way
+				c.Program.DefaultM = rapid.SampledFrom([]string{"abc", "'true'", "'1.5'", "'null'", "'[1]'", "'{'", "1e2", "'\"7\"'"}).Draw(t, "odd_default_text")
+				if rapid.Bool().Draw(t, "default_used") {
+					delete(c.Doc, "m")
+					for i := range c.Clients {
+						if m, ok := c.Clients[i].Input.(map[string]any); ok {
+							delete(m, "m")
+						}
+					}
 				}
 			}
 			return c
